@@ -47,6 +47,8 @@ def limbs(v):
 
 def gen_test(recipe, cex, oid):
     """recipe: dict(kind, ...) from the unit; cex: {'symbols': {name: hex}, 'code_value': hex, 'contract_value': hex}"""
+    if recipe["kind"] == "scenario":
+        return recipe["src"].replace("__NAME__", "replay_" + re.sub(r"\W", "_", oid))
     env = {k: int(v, 16) for k, v in cex["symbols"].items()}
     get = lambda name: env.get(name, 1)     # symbols that do not occur in the difference polynomial were evaluated at 1
     S = lambda name: f"sc({limbs(get(name))})"
@@ -180,10 +182,13 @@ def run_replay(tests_src, keep=False):
         f.write("\n#[cfg(test)]\nmod verif_replay;\n")
     env = core.offline_env()
     env["CARGO_TARGET_DIR"] = REPLAY_TARGET
+    env["RUST_BACKTRACE"] = "0"
     t = time.time()
     r = subprocess.run(["cargo", "test", "--offline", "--lib", "replay_", "--", "--test-threads", "4"], cwd=root, env=env,
                        capture_output=True, text=True, timeout=1800)
-    log = (r.stdout[-6000:] + "\n" + r.stderr[-3000:])
+    # the verdict lines first (test status lines and the assertion messages), then the tail of both streams
+    key_lines = [l for l in (r.stdout + "\n" + r.stderr).splitlines() if re.match(r"test \S+ \.\.\. ", l) or "REPLAY-" in l]
+    log = "\n".join(l[:1500] for l in key_lines[:200]) + "\n----\n" + r.stdout[-4000:] + "\n" + r.stderr[-2000:]
     if "REPLAY-VIOLATION-REPRODUCED" in log:
         return "reproduced", log
     if "REPLAY-INCONCLUSIVE" in log:
